@@ -78,6 +78,9 @@ func registerAll() {
 
 	reg("L11", "decoded-field coverage: every slab literal built by a decoder restores every field the in-memory code maintains for that state (sibling link, header id/size/count/first key, elements, extra data, any-size and collision-group flags, inlined flag)", ruleL11)
 
+	reg("L12", "inline/uninline decision table: Array.Storable / OrderedMap.Storable evaluated on the four (inlinable, inlined) states perform exactly the transition and return exactly the representation the state requires; index slabs are never inlinable; data slabs are inlinable only as roots within the caller's limit", ruleL12)
+	reg("L13", "merge only when no sibling can lend, rebalance only when one can (MergeOrRebalanceChildSlab decision edges)", ruleL13)
+
 	const tCFG = "CFG path rules on go/ssa (must-precede, edge dominance, loop-iteration coverage, error-edge reachability)"
 	propTable["C01"] = &PropSpec{
 		ID:    "C01",
@@ -95,7 +98,7 @@ func registerAll() {
 	}
 	propTable["C05"] = &PropSpec{
 		ID:    "C05",
-		Rules: []string{"L5", "L6", "L9", "L7"},
+		Rules: []string{"L5", "L6", "L9", "L13", "L7"},
 		Explanation: "for EVERY slab size t in [minSlabSize, maxSlabSize] (affine-interval abstract interpretation of setThreshold, not a sample): minThreshold is t/2, maxThreshold is 1.5t and fits the 16-bit size fields, two maximal array elements plus the slab prefix fit in t, two maximal map elements plus digests and prefixes fit in t, a maximal key plus an equal value fit the element limit, and no unsigned subtraction underflows; every element is materialised with the limit of its container kind; every mutation path runs the full / underflow decision and refreshes the index data it summarises (sizes, counts, cumulative counts, header copies).",
 		NotDecided: "that split, lend/borrow and merge choose points that keep both sides inside the band (depends on element sizes); sortedness/uniqueness of digests and sibling links (value-level).",
 		Technique:  "affine-interval abstract interpretation (exhaustive over the symbolic slab size), value-flow checks on Storable() limits, must-pass-through path rules",
@@ -130,7 +133,7 @@ func registerAll() {
 	}
 	propTable["C10"] = &PropSpec{
 		ID:    "C10",
-		Rules: []string{"R4", "R5", "R1", "L8", "N1", "L9", "L6"},
+		Rules: []string{"R4", "R5", "R1", "L8", "N1", "L9", "L6", "L12"},
 		Explanation: "every exported mutator of Array/OrderedMap (computed from may-effects on slab state over a closure-granular call graph) calls notifyParentIfNeeded on every success path (extra-data-only mutators may store the standalone root on the not-inlined edge instead); every child handed out by lookup/mutable iteration or stored by Set/Insert passes setCallbackWithChild on every success path with the container's own inline limit (array: maxInlineArrayElementSize; map: maxInlineMapValueSize of that element's key storable size); read-only iterators arm the mutation callback; whatever replaces a container's root carries the id read from the previous root before any id change, and ValueID does not depend on the inlined state.",
 		NotDecided: "that the callback finds the right element after arbitrary parent restructuring (mutableElementIndex arithmetic), 'inlined exactly when it fits' (value-dependent), validity of ancestors.",
 		Technique:  "must-pass-through path rule over go/ssa CFG with interprocedural must-notify summaries; may-effect summaries to compute the mutator set; value-flow checks on callback arguments and root ids",
